@@ -112,6 +112,43 @@ def deviations(data, tier, pairs=False):
                         yield ('dataflag', 'data segment flag 2 + memory 0 -> flag 0', (lambda: wp.emit(hdr, secs)))
                         t.value = 2
                     ch[:] = old
+    # local declarations: the same list of locals written with another grouping (count x type runs) - per function body
+    for s in secs:
+        if s.id != 10:
+            continue
+        for bi, body in enumerate(t for t in s.sized.children if isinstance(t, wp.Sized)):
+            ch = body.children
+            g = ch[0]
+            n = g.value
+            groups = [(ch[1 + 2 * i].value, ch[2 + 2 * i].data) for i in range(n)]
+            rest = ch[1 + 2 * n:]
+            old = list(ch)
+
+            def install(newgroups):
+                toks = [wp.Leb(len(newgroups), False, 32, None, 'locals.groups')]
+                for c, ty in newgroups:
+                    toks += [wp.Leb(c, False, 32, None, 'locals.count'), wp.Raw(ty)]
+                ch[:] = toks + rest
+            variants = []
+            if any(1 < c <= 64 for c, ty in groups):
+                variants.append(('every local in a group of its own', [x for c, ty in groups for x in ([(1, ty)] * c if c <= 64 else [(c, ty)])]))
+            merged = []
+            for c, ty in groups:
+                if merged and merged[-1][1] == ty:
+                    merged[-1] = (merged[-1][0] + c, ty)
+                else:
+                    merged.append((c, ty))
+            if merged != groups:
+                variants.append(('adjacent groups of one type merged', merged))
+            variants.append(('an empty group (0 x i64) in front', [(0, b'\x7e')] + groups))
+            if groups:
+                variants.append(('an empty group (0 x f32) at the end', groups + [(0, b'\x7d')]))
+            if tier == 'quick' and bi % 4:
+                variants = variants[:1]
+            for what, ng in variants:
+                install(ng)
+                yield ('locals', 'function body %d: %s' % (bi, what), (lambda: wp.emit(hdr, secs)))
+                ch[:] = old
     # empty sections: absent -> present with count 0
     present = {s.id for s in secs}
     for sid in (1, 2, 4, 5, 6, 7, 9, 11):
@@ -272,7 +309,7 @@ def main(tier):
     chk.cov['n_skipped_base_modules'] = len(skipped)
     chk.cov['rule'] = ('base corpus = valid spec-suite modules (quick: every 6th, thorough: all 874) + modules from the C04/C06 enumerations + 3 hand-built '
                        'modules; for each: every single deviation from its byte encoding (each LEB128 field re-encoded at every other legal length '
-                       '(quick: shortest, +1, maximal), custom sections at every section boundary, data flag 0<->2, empty sections present<->omitted, '
+                       '(quick: shortest, +1, maximal), custom sections at every section boundary, data flag 0<->2, empty sections present<->omitted, the local declarations of a body regrouped (split, merged, empty groups), '
                        'all-maximal encoding; thorough: systematic pairs for the hand-built modules). distinct_nontrivial = variants whose bytes differ '
                        'from the base and from each other; each must be accepted and give the same multiset of blank-line-separated C definitions '
                        '(function order legitimately follows the SHA-1 of the body bytes)')
